@@ -682,7 +682,7 @@ theorem checkWorkflowCall_bad (cx : Cx) (c : Option WorkflowCall) (s : Str) (hm 
       simp only
       rcases hm with (rfl | ⟨kv, hk, rfl⟩) | ⟨kv, hk, rfl⟩
       · exact (checkString_bad cx _ _ h).left.left
-      · exact Reported.left (Reported.right (flatMap_reported _ _ kv hk _ (checkString_bad cx _ _ h)))
+      · exact Reported.left (Reported.right (flatMap_reported _ _ kv hk _ (checkString_bad cx _ _ h).left))
       · exact Reported.right (flatMap_reported _ _ kv hk _ (checkString_bad cx _ _ h))
 
 theorem jobPre_bad (cx : Cx) (n : Job) (s : Str) (hm : s ∈ jobPreStrs n) (h : Malformed s.value) :
